@@ -307,6 +307,25 @@ def make_class_call_emulate():
     return cls, [cls, cls.__dict__['__call__']]
 
 
+def make_partial_of_modified():
+    # a partial object over a modifiers-wrapped function that forwards nothing: plain retrieval masks the stored signature
+    @modifiers.kwoargs('flag')
+    def target(a, b, flag=False, **options):
+        return a
+    p = functools.partial(target, 1, extra=2)
+    return p, [p, target, target.__signature__]
+
+
+def make_forwarder_to_partial_of_annotated():
+    @modifiers.annotate(a=int)
+    def target(a, b, **options):
+        return a
+
+    def w(*args, **kwargs):
+        return functools.partial(target, 1, extra=2)(*args, **kwargs)
+    return w, [w, target, target.__signature__]
+
+
 def make_annotate_then_kwoargs_nosource():
     # the same, on a function whose source cannot be retrieved (built by exec): the discovery hint has nothing to say
     ns = {}
@@ -320,7 +339,7 @@ SCENARIOS = ('wraps1', 'wraps2', 'own_signature', 'own_signature_and_wrapped', '
              'signature_property', 'forwards_to_function', 'forwards_emulate', 'forger_raises', 'kwoargs_function',
              'kwoargs_method', 'wrappers_decorator', 'partial_of_wraps', 'annotate_then_kwoargs',
              'handbuilt_upgraded_signature', 'handbuilt_on_instance', 'forger_raises_emulate', 'as_forged_forger_fails',
-             'annotate_then_kwoargs_nosource', 'class_call_emulate')
+             'annotate_then_kwoargs_nosource', 'class_call_emulate', 'partial_of_modified', 'forwarder_to_partial_of_annotated')
 RETRIEVERS = (('sigtools.signature', lambda o: sigtools.signature(o)),
               ('inspect.signature', lambda o: inspect.signature(o)))
 
@@ -357,7 +376,14 @@ def reach(roots):
             continue
         allv = dict(d or {})
         allv.update(slots)
-        out[id(o)] = (o, dict((k, id(v)) for k, v in allv.items()))
+        attrs = dict((k, id(v)) for k, v in allv.items())
+        # a signature object's provenance is part of it: the map's entries, lists and depths by content
+        src = allv.get('slot:sources')
+        if isinstance(src, dict):
+            attrs['slot:sources (content)'] = tuple(sorted(
+                (str(k), tuple(sorted((id(f), d_) for f, d_ in v.items())) if isinstance(v, dict) else tuple(id(f) for f in v))
+                for k, v in src.items()))
+        out[id(o)] = (o, attrs)
         for k, v in allv.items():
             if k in ('__wrapped__', '__signature__', 'func', 'wrapper', '__func__', '__self__', '_signature_forger',
                      'slot:func', 'slot:__self__', 'slot:__signature__') or isinstance(v, (types.FunctionType, functools.partial)):
